@@ -16,6 +16,8 @@ FaultsAt(p) ==
   \cup (IF IsNN(t) THEN {[o |-> "null"]} ELSE {})
   \cup (IF IsList(core) THEN {[o |-> "nonlist"]} ELSE {})
   \cup (IF ~IsList(core) /\ IsLeaf(Named(core)) THEN {[o |-> "bad"]} ELSE {})
+  \* a value the scalar's own output coercion turns into null, at a non-null position
+  \cup (IF IsNN(t) /\ ~IsList(core) /\ Named(core) = "Cs" THEN {[o |-> "blank"]} ELSE {})
   \cup (IF ~IsList(core) /\ IsAbstract(Named(core))
         THEN {[o |-> "rt", tn |-> "Nope"], [o |-> "rt", tn |-> "T"]}
              \* object types that are possible for ANOTHER abstract type only
